@@ -20,6 +20,7 @@ import (
 	"net/http"
 	"net/url"
 	"strings"
+	"sync/atomic"
 	"testing"
 	"time"
 
@@ -165,7 +166,30 @@ func buildSpace() engine.Space {
 		// reader of the library (userinfo, introspection, token exchange, revocation), see probeReaders.
 		engine.D("subject", identClasses...),
 		engine.D("client", identClasses...),
+		// wave 5, family "environment change between two storage calls of ONE request": the storage switches its signing
+		// key (and what KeySet publishes) to the key of this algorithm - another kid, another hash family than the case's
+		// key - on entering the n-th storage call of the FINAL request, for every n of that request's journal (see
+		// midRotations; the journal is taken from the fault-free run of the same case)
+		engine.D("midrot", "none", "ES384", "EdDSA", "ES256"),
+		// wave 5, family "configuration corners of the key material" (see withKeyConf): what the storage publishes next to /
+		// about its signing key
+		engine.D("keyconf", "std", "use-empty", "kid-empty", "next-same-type", "enc-key", "enc-samekid"),
 	}
+}
+
+// partners: the dimensions a non-default value of the two wave-5 dimensions is combined with (both tiers); every other
+// dimension stays at its default next to them. Keeps the (journal-length times more expensive) mid-request rotations and
+// the key-configuration corners bounded.
+var midrotPartners = []string{"flow", "attype", "key", "router", "slowkey", "uiassert", "scopes", "caps", "private", "exvar", "midrot"}
+var keyconfPartners = []string{"flow", "attype", "key", "router", "slowkey", "issuer", "uiassert", "probe", "exvar", "keyconf"}
+
+func onlyWith(v engine.Vec, partners []string) bool {
+	for i, d := range space {
+		if v[i] != 0 && !has(partners, d.Name) {
+			return false
+		}
+	}
+	return true
 }
 
 var space = buildSpace()
@@ -176,7 +200,7 @@ var thoroughTier bool
 
 type caseT struct {
 	flow, attype, alg, router, scopesName, private, issuer, caps, nonce, exvar, rnarrow, probe, rotate string
-	subjClass, clientClass                                                                  string
+	subjClass, clientClass, midrot, keyconf                                                 string
 	routerIdx                                                                               int
 	skew, idlt, atlt                                                                        time.Duration
 	uiassert                                                                                bool
@@ -187,7 +211,7 @@ func decode(v engine.Vec) caseT {
 	g := func(n string) string { return space.Get(v, n) }
 	c := caseT{flow: g("flow"), attype: g("attype"), alg: g("key"), router: g("router"), scopesName: g("scopes"), private: g("private"),
 		issuer: g("issuer"), caps: g("caps"), nonce: g("nonce"), exvar: g("exvar"), rnarrow: g("rnarrow"), probe: g("probe"), rotate: g("rotate"),
-		subjClass: g("subject"), clientClass: g("client")}
+		subjClass: g("subject"), clientClass: g("client"), midrot: g("midrot"), keyconf: g("keyconf")}
 	if r := g("slowkey"); r != "-" {
 		c.alg = r
 	}
@@ -278,6 +302,18 @@ func skip(v engine.Vec) bool {
 	nd := func(n string) bool { return v[space.Idx(n)] != 0 }
 	flow := g("flow")
 	if nd("slowkey") && nd("key") {
+		return true
+	}
+	if nd("midrot") {
+		alg := g("key")
+		if nd("slowkey") {
+			alg = g("slowkey")
+		}
+		if alg == g("midrot") || !onlyWith(v, midrotPartners) {
+			return true // the second key must differ from the case's key
+		}
+	}
+	if nd("keyconf") && !onlyWith(v, keyconfPartners) {
 		return true
 	}
 	if thoroughTier {
@@ -451,7 +487,50 @@ func planFor(c caseT) keyPlan {
 		alt := altCache[c.alg]
 		p.pre, p.prePub = alt.sk, []*refstore.PubKey{old, alt.pk}
 	}
-	return p
+	return withKeyConf(p, c)
+}
+
+// withKeyConf: configuration corners of the key material (never combined with a key history, see keyconfPartners).
+//
+//	use-empty       the signing key is published without "use" (the member is optional; oidc.FindMatchingKey lets an
+//	                empty use of a published key pass)
+//	kid-empty       the signing key has no key id: tokens carry no kid, the key is published without kid, and it is the
+//	                only published key of its key type (the retired key next to it is of another type) - the documented
+//	                fallback of oidc.FindMatchingKey
+//	next-same-type  rotation in progress: the NEXT key (same algorithm, other kid, other material) is already published,
+//	                in front of the current one
+//	enc-key         an encryption key (use "enc", no signature algorithm, same key type) is published in front of the
+//	                signing key
+//	enc-samekid     ... and it has the kid of the signing key
+func withKeyConf(p keyPlan, c caseT) keyPlan {
+	if c.keyconf == "std" {
+		return p
+	}
+	cur, alt, old := signCache[c.alg], altCache[c.alg], oldKey(c.alg)
+	sk, pub := cur.sk, []*refstore.PubKey{old, cur.pk}
+	switch c.keyconf {
+	case "use-empty":
+		pk := *cur.pk
+		pk.Usage = ""
+		pub = []*refstore.PubKey{old, &pk}
+	case "kid-empty":
+		s, pk := *cur.sk, *cur.pk
+		s.KID, pk.KID = "", ""
+		other := oldKey("ES256")
+		if strings.HasPrefix(c.alg, "ES") {
+			other = oldKey("EdDSA")
+		}
+		sk, pub = &s, []*refstore.PubKey{other, &pk}
+	case "next-same-type":
+		nx := *alt.pk
+		nx.KID = "next-" + c.alg
+		pub = []*refstore.PubKey{&nx, old, cur.pk}
+	case "enc-key":
+		pub = []*refstore.PubKey{{KID: "enc-1", Usage: "enc", Pub: alt.pk.Pub}, old, cur.pk}
+	case "enc-samekid":
+		pub = []*refstore.PubKey{{KID: cur.pk.KID, Usage: "enc", Pub: alt.pk.Pub}, old, cur.pk}
+	}
+	return keyPlan{pre: sk, cur: sk, prePub: pub, curPub: pub}
 }
 
 // twinRig: a second provider over its own storage; its signing key has the kid and algorithm of the case's key
@@ -548,6 +627,7 @@ type driver struct {
 	plan   keyPlan
 	client string // client of the user flows
 	auth   string // its basic credentials
+	quiet  bool   // judge only the tokens of the response (re-runs of the final request under a mid-request rotation)
 }
 
 // mixable: the flow has a precursor leg that a provider with op.IssuerFromHost must serve under another Host than
@@ -710,6 +790,21 @@ type flowOut struct {
 	history  *verdict // a token of an earlier issuance of the history (rotate dimension) is wrong
 	otherAT  string   // an access token from an earlier response of the same flow (for the other-at probe)
 	assertJW string
+	final    func(*flowOut)  // sends the final request (again) and fills resp / params / calls
+	calls    []refstore.Call // storage calls of the final request
+	pre      *refstore.State // midrot: the storage state right before the final request
+}
+
+// fire sends the final request of the flow and keeps the closure, so that the very same request can be sent again
+// from the same storage state (midRotations).
+func (d *driver) fire(o *flowOut, send func() *rig.Resp, parse func(*rig.Resp) map[string]string) {
+	o.final = func(t *flowOut) {
+		from := d.r.Core.JournalLen()
+		t.resp = send()
+		t.calls = d.r.Core.JournalCopy()[from:]
+		t.params = parse(t.resp)
+	}
+	o.final(o)
 }
 
 func tokenIDs(st *refstore.State) map[string]bool {
@@ -756,9 +851,9 @@ func fragmentParams(resp *rig.Resp) map[string]string {
 	return out
 }
 
-func (d *driver) run() (o flowOut) {
+func (d *driver) run(o *flowOut) {
 	c := d.c
-	o.exp = expect{client: d.client, subject: c.user(), skew: c.skew, idlt: c.idlt, atlt: c.atlt, granted: c.scopes, alg: c.alg, kid: "cur-" + c.alg}
+	o.exp = expect{client: d.client, subject: c.user(), skew: c.skew, idlt: c.idlt, atlt: c.atlt, granted: c.scopes, alg: c.alg, kid: d.plan.cur.KID}
 	o.exp.issuer = d.expectedIssuer()
 	e := &o.exp
 	mark := func() {
@@ -767,6 +862,9 @@ func (d *driver) run() (o flowOut) {
 		}
 		o.now = time.Now()
 		o.before = tokenIDs(d.r.Core.St)
+		if c.midrot != "none" {
+			o.pre = d.r.Core.St.Clone()
+		}
 	}
 	if c.rotate != "none" {
 		rg := d.r
@@ -805,8 +903,7 @@ func (d *driver) run() (o flowOut) {
 		}
 		time.Sleep(2 * time.Second)
 		mark()
-		o.resp = d.post(true, "/oauth/token", url.Values{"grant_type": {"authorization_code"}, "code": {code}, "redirect_uri": {"https://rp.example/cb"}}, d.auth)
-		o.params = jsonParams(o.resp)
+		d.fire(o, func() *rig.Resp { return d.post(true, "/oauth/token", url.Values{"grant_type": {"authorization_code"}, "code": {code}, "redirect_uri": {"https://rp.example/cb"}}, d.auth) }, jsonParams)
 		e.nonce, e.amr, e.code = c.nonce, []string{"pwd"}, code
 		e.wantID, e.wantAT = idWanted(c.scopes), true
 	case "implicit-id", "implicit-idtoken":
@@ -835,8 +932,7 @@ func (d *driver) run() (o flowOut) {
 		e.authTime = time.Now()
 		time.Sleep(4 * time.Second)
 		mark()
-		o.resp = d.do(true, rig.Req("GET", "/authorize/callback", url.Values{"id": {id}}, nil))
-		o.params = fragmentParams(o.resp)
+		d.fire(o, func() *rig.Resp { return d.do(true, rig.Req("GET", "/authorize/callback", url.Values{"id": {id}}, nil)) }, fragmentParams)
 		e.nonce, e.amr = c.nonce, []string{"pwd"}
 		e.wantID, e.wantAT = idWanted(c.scopes), c.flow == "implicit-idtoken"
 		e.fragment = true
@@ -862,8 +958,7 @@ func (d *driver) run() (o flowOut) {
 			f.Set("scope", strings.Join(e.granted, " "))
 		}
 		mark()
-		o.resp = d.post(true, "/oauth/token", f, d.auth)
-		o.params = jsonParams(o.resp)
+		d.fire(o, func() *rig.Resp { return d.post(true, "/oauth/token", f, d.auth) }, jsonParams)
 		e.amr = []string{"pwd"}
 		e.wantID, e.wantAT = idWanted(e.granted), true
 	case "device":
@@ -881,8 +976,7 @@ func (d *driver) run() (o flowOut) {
 		e.authTime = time.Now()
 		time.Sleep(5 * time.Second)
 		mark()
-		o.resp = d.post(true, "/oauth/token", url.Values{"grant_type": {string(oidc.GrantTypeDeviceCode)}, "device_code": {dc}}, d.auth)
-		o.params = jsonParams(o.resp)
+		d.fire(o, func() *rig.Resp { return d.post(true, "/oauth/token", url.Values{"grant_type": {string(oidc.GrantTypeDeviceCode)}, "device_code": {dc}}, d.auth) }, jsonParams)
 		e.amr = []string{"pwd"}
 		e.wantAT = true
 		if has(c.scopes, "openid") {
@@ -891,16 +985,14 @@ func (d *driver) run() (o flowOut) {
 	case "cc":
 		time.Sleep(2 * time.Second)
 		mark()
-		o.resp = d.post(true, "/oauth/token", url.Values{"grant_type": {"client_credentials"}, "scope": {strings.Join(c.scopes, " ")}}, rig.Basic(c.svcID(), "secret-svc"))
-		o.params = jsonParams(o.resp)
+		d.fire(o, func() *rig.Resp { return d.post(true, "/oauth/token", url.Values{"grant_type": {"client_credentials"}, "scope": {strings.Join(c.scopes, " ")}}, rig.Basic(c.svcID(), "secret-svc")) }, jsonParams)
 		e.client, e.subject = c.svcID(), c.svcID()
 		e.wantAT = true
 	case "jwt":
 		time.Sleep(2 * time.Second)
 		mark()
 		a := assertion(c.jwtID(), e.issuer, o.now)
-		o.resp = d.post(true, "/oauth/token", url.Values{"grant_type": {string(oidc.GrantTypeBearer)}, "assertion": {a}, "scope": {strings.Join(c.scopes, " ")}}, "")
-		o.params = jsonParams(o.resp)
+		d.fire(o, func() *rig.Resp { return d.post(true, "/oauth/token", url.Values{"grant_type": {string(oidc.GrantTypeBearer)}, "assertion": {a}, "scope": {strings.Join(c.scopes, " ")}}, "") }, jsonParams)
 		e.client, e.subject, e.skew = c.jwtID(), c.jwtID(), 0
 		e.reqAud = []string{e.issuer}
 		e.granted = nil
@@ -953,11 +1045,83 @@ func (d *driver) run() (o flowOut) {
 		}
 		mark()
 		e.authTime = o.now
-		o.resp = d.post(true, "/oauth/token", f, d.auth)
-		o.params = jsonParams(o.resp)
+		d.fire(o, func() *rig.Resp { return d.post(true, "/oauth/token", f, d.auth) }, jsonParams)
 	}
 	return
 }
+
+// midRotations: environment change between two storage calls of one request. The final request of the case is sent
+// again from the very same storage state (and instant: nothing sleeps in between), once for every storage call n of
+// its fault-free journal; on entering call n the storage switches its signing key to a second key of another kid and
+// hash family and publishes it next to the first. Oracle, read at the END of the request, from the statement: every
+// token of the response passes the library's verifiers against the key set published then, carries the header of one
+// of the two keys (each of them was "the current signing key" at some point of the request) and its at_hash / c_hash
+// are the left-half hashes under the algorithm of its OWN header.
+func (d *driver) midRotations(o *flowOut, first engine.Result) engine.Result {
+	if first.Sig != "" || !strings.HasPrefix(first.Outcome, "ok ") || o.final == nil || o.pre == nil {
+		return first // refused (Either) / panic / violation already without a rotation
+	}
+	cfg := d.r.Core.Cfg
+	k1, k1pub, k2 := d.plan.cur, d.plan.curPub, signCache[d.c.midrot]
+	k2pub := append(append([]*refstore.PubKey{}, k1pub...), k2.pk)
+	calls := o.calls
+	defer func() { d.quiet = false }()
+	byK1, byK2 := 0, 0
+	for n := range calls {
+		d.r.Core.Reset(o.pre.Clone())
+		cfg.Sign, cfg.Published = k1, k1pub
+		fired := false
+		d.r.Core.Fault = func(idx int, method string) error {
+			if idx == n {
+				cfg.Sign, cfg.Published, fired = k2.sk, k2pub, true
+			}
+			return nil
+		}
+		t := &flowOut{now: o.now, before: o.before, exp: o.exp, otherAT: o.otherAT}
+		t.exp.filled, t.exp.nonceFilled = nil, false
+		t.exp.altAlg, t.exp.altKid = string(k2.sk.Alg), k2.sk.KID
+		o.final(t)
+		d.r.Core.Fault = nil
+		if !fired {
+			cfg.Sign, cfg.Published = k2.sk, k2pub // the request took another path; read at the end all the same
+		}
+		d.quiet = true
+		r := judge(d, t)
+		if r.Sig != "" || !strings.HasPrefix(r.Outcome, "ok ") {
+			where := fmt.Sprintf("the storage switched its signing key (and what KeySet publishes) from %s/%s to %s/%s on entering storage call #%d %s of the final request (journal of that request: %v): ",
+				k1.Alg, k1.KID, k2.sk.Alg, k2.sk.KID, n, calls[n].Method, calls)
+			if r.Sig == "" {
+				return engine.Bad(first.Rule, "midrot:"+r.Outcome, "C06/midrot-outcome/"+d.c.router+"/"+d.c.flow, where+"outcome "+r.Outcome+", without the rotation: "+first.Outcome)
+			}
+			return engine.Bad(r.Rule, "midrot:"+r.Outcome, r.Sig+"/midrot", where+r.Detail)
+		}
+		for _, tok := range []string{t.params["id_token"], t.params["access_token"]} {
+			if p, ok := splitJWT(tok); ok {
+				if p.kid == k2.sk.KID {
+					byK2++
+				} else {
+					byK1++
+				}
+			}
+		}
+	}
+	midrotStats.runs.Add(int64(len(calls)))
+	midrotStats.byK1.Add(int64(byK1))
+	midrotStats.byK2.Add(int64(byK2))
+	signed := "none"
+	switch {
+	case byK1 > 0 && byK2 > 0:
+		signed = "both"
+	case byK1 > 0:
+		signed = "first-only"
+	case byK2 > 0:
+		signed = "second-only"
+	}
+	first.Outcome += " midrot-signed-by=" + signed
+	return first
+}
+
+var midrotStats struct{ runs, byK1, byK2 atomic.Int64 }
 
 func idWanted(scopes []string) tri {
 	if has(scopes, "openid") {
@@ -988,8 +1152,12 @@ func (w *worker) runCase(v engine.Vec) engine.Result {
 	var res engine.Result
 	pan := engine.Bubble(w.t, 1000*time.Hour, func() {
 		d := &driver{r: r, twin: twin, c: c, router: c.routerIdx, plan: plan, client: c.clientID(), auth: rig.Basic(c.clientID(), "secret-web")}
-		out := d.run()
-		res = judge(d, &out)
+		out := &flowOut{}
+		d.run(out)
+		res = judge(d, out)
+		if c.midrot != "none" {
+			res = d.midRotations(out, res)
+		}
 	})
 	if pan != "" {
 		return engine.Bad("harness", "harness-panic", "C06/harness-panic", pan)
@@ -1000,7 +1168,7 @@ func (w *worker) runCase(v engine.Vec) engine.Result {
 func TestCheck(t *testing.T) {
 	c := engine.Start(t, "C06")
 	thoroughTier = c.Thorough()
-	c.SetRule("E1: full product flow(10) x access-token type x signing key (ES256/ES384/ES512/EdDSA) x router, crossed with every <=k deviations of the other configuration dimensions (every RSA/PSS/P-384/P-521 algorithm, clock skew incl. 1 s, ID/AT lifetimes down to 2 s / 1 s, scope shape, userinfo assertion, private claims incl. one custom claim per registered claim name, issuer strategy/host incl. Host changing between the legs of every flow in both directions, storage capability set, nonce, exchange subject-token kind, refresh narrowing, negative probe, key history of the provider: rotation to a new kid between the legs, same kid with other key material after a priming issuance on this or on a second provider, identifier alphabet (13 classes: plain, e-mail, |, +, space, /, %, percent-escape look-alike, non-ASCII, & # ? ;, white-space padded, case-changed, containing ':') for the subject / service user / jwt-bearer client and for the client of the user flows, scope tokens and nonce with the same characters); each vector = one complete flow over HTTP on a fresh reference storage inside a synctest bubble; the final response is judged by rp.VerifyTokens/VerifyIDToken + op.VerifyAccessToken against the provider's /keys document, a reference claim table and opaque-token decryption; every issued access token is then presented to userinfo, introspection, token exchange and revocation, which must hand the stored token id and subject to the storage")
+	c.SetRule("E1: full product flow(10) x access-token type x signing key (ES256/ES384/ES512/EdDSA) x router, crossed with every <=k deviations of the other configuration dimensions (every RSA/PSS/P-384/P-521 algorithm, clock skew incl. 1 s, ID/AT lifetimes down to 2 s / 1 s, scope shape, userinfo assertion, private claims incl. one custom claim per registered claim name, issuer strategy/host incl. Host changing between the legs of every flow in both directions, storage capability set, nonce, exchange subject-token kind, refresh narrowing, negative probe, key history of the provider: rotation to a new kid between the legs, same kid with other key material after a priming issuance on this or on a second provider, identifier alphabet (13 classes: plain, e-mail, |, +, space, /, %, percent-escape look-alike, non-ASCII, & # ? ;, white-space padded, case-changed, containing ':') for the subject / service user / jwt-bearer client and for the client of the user flows, scope tokens and nonce with the same characters); each vector = one complete flow over HTTP on a fresh reference storage inside a synctest bubble; the final response is judged by rp.VerifyTokens/VerifyIDToken + op.VerifyAccessToken against the provider's /keys document, a reference claim table and opaque-token decryption; every issued access token is then presented to userinfo, introspection, token exchange and revocation, which must hand the stored token id and subject to the storage; wave 5: (midrot) the final request is sent again from the same storage state once for every storage call of its journal, the storage switching its signing key and the published set to a key of another kid and hash family on entering that call - the tokens must carry the header of one of the two keys, verify against /keys at the end of the request and bind at_hash / c_hash under the algorithm of their own header; (keyconf) signing key published without use / without kid, next key of the same type or an encryption key (own kid / the signing key's kid) published in front of it")
 	c.Assume("refstore (reference storage) is correct and part of the trusted base; it sets userinfo.Subject under scope openid like the repository's example storage",
 		"go standard library crypto and go-jose primitives are correct",
 		"the integrator lists the signing algorithm in the provider's verifier options when it is not RS256/ES256/PS256",
@@ -1032,5 +1200,7 @@ func TestCheck(t *testing.T) {
 	})
 	c.Extra("reader_probes", map[string]int64{"attributed_to_stored_id_and_subject": readerStats.attributed.Load(), "refused_for_subject_with_colon(either)": readerStats.colonRefused.Load(),
 		"foreign_or_unusual_caller_turned_away(either)": readerStats.callerRefused.Load()})
+	c.Extra("mid_request_rotations", map[string]int64{"final_requests_resent_with_a_rotation": midrotStats.runs.Load(), "signed_tokens_of_those_by_the_first_key": midrotStats.byK1.Load(),
+		"signed_tokens_of_those_by_the_second_key": midrotStats.byK2.Load()})
 	c.Finish()
 }
